@@ -14,6 +14,9 @@ import (
 	"golang.org/x/tools/go/ssa"
 )
 
+// nilSentinel stands for the nil constant of an interface or pointer type in evaluation results.
+const nilSentinel = "\x00<nil>"
+
 type cval struct {
 	c     constant.Value            // scalar
 	elems map[int64]constant.Value  // array / slice contents
@@ -156,6 +159,10 @@ func (p *Prog) constEval(fn *ssa.Function, args []constant.Value) (constant.Valu
 				if z := zero(x.Type()); z != nil {
 					return &cval{c: z}, true
 				}
+				switch x.Type().Underlying().(type) {
+				case *types.Interface, *types.Pointer:
+					return &cval{c: constant.MakeString(nilSentinel)}, true // a nil interface / pointer constant
+				}
 				return nil, false
 			}
 			return &cval{c: x.Value}, true
@@ -269,10 +276,21 @@ func (p *Prog) constEval(fn *ssa.Function, args []constant.Value) (constant.Valu
 			case *ssa.Lookup:
 				base, ok1 := get(x.X)
 				key, ok2 := get(x.Index)
-				if !ok1 || !ok2 || base.kind != 2 || x.CommaOk {
+				if !ok1 || !ok2 || base.kind != 2 {
 					return nil, false
 				}
 				ev, has := base.m[key.c.ExactString()]
+				if x.CommaOk {
+					if !has {
+						ev = zero(x.Type().(*types.Tuple).At(0).Type())
+						if ev == nil {
+							return nil, false
+						}
+					}
+					// (value, ok) — read back by Extract
+					env[x] = &cval{kind: 4, elems: map[int64]constant.Value{0: ev, 1: constant.MakeBool(has)}}
+					break
+				}
 				if !has {
 					ev = zero(x.Type())
 					if ev == nil {
@@ -280,6 +298,12 @@ func (p *Prog) constEval(fn *ssa.Function, args []constant.Value) (constant.Valu
 					}
 				}
 				env[x] = &cval{c: ev}
+			case *ssa.Extract:
+				t, ok := get(x.Tuple)
+				if !ok || t.kind != 4 {
+					return nil, false
+				}
+				env[x] = &cval{c: t.elems[int64(x.Index)]}
 			case *ssa.Call:
 				bi, ok := x.Call.Value.(*ssa.Builtin)
 				if !ok || bi.Name() != "len" {
